@@ -431,6 +431,11 @@ def _hist_oracle(a, ires):
     S = _initial_state(a)
     if ires[0][0] == 1:
         if S is not None and _in_range(S):
+            if a[0][0] == 2 and (S["shf"] != 1 or S["dlen"] != 8 + len(S["stamp"]) + len(S["src"])) and ires[0][1] in (1, 2, 3):
+                # from_composite_fields given a header that cannot be this telemetry's (no secondary header flag, a data
+                # length that is not that of the parts): today it is kept and the object packs octets its own decoder
+                # refuses; refusing the header at construction with ValueError is as good
+                return None
             return ("C03/PusTm/valid-refused", "valid construction (path %d) raised %s: %s" % (a[0][0], ires, a[0]))
         return None
     if S is None:
@@ -494,13 +499,32 @@ def _hist_oracle(a, ires):
         if k in (3, 4, 5, 6, 9, 10, 11, 22, 23, 24, 30, 31):
             S["fresh"] = False
         if k in (3, 9, 10):
+            new_src = (S["src"] if k == 10 else []) + list(o[1:])
             if not ok:
+                if 8 + len(S["stamp"]) + len(new_src) > 65535 and st[1:2] and st[1] in (1, 2, 3):
+                    # source data that no longer fits a space packet (today: refused by the next pack): refused by the
+                    # assignment with ValueError, nothing assigned.  k == 10 extended the caller's own buffer in place
+                    # before handing it over again, so what the object then holds is the caller's doing: not predicted
+                    if k == 10:
+                        return None
+                    continue
                 return ("C11/PusTm.tm_data/raises", where + " raised %s" % st)
-            S["src"] = (S["src"] if k == 10 else []) + list(o[1:])
+            S["src"] = new_src
             S["dlen"] = 8 + len(S["stamp"]) + len(S["src"])
             continue
         if k in (5, 11, 22, 30, 31):
             if not ok:
+                if k == 22:
+                    outside = 8 + len(o[1:]) + len(S["src"]) > 65535          # a timestamp that no longer fits a space packet
+                else:
+                    key = {5: "apid", 11: "flags"}.get(k) or (_HDR_KEYS[o[1]] if k == 30 else _SEC_KEYS[o[1]])
+                    val = o[2] if k in (30, 31) else o[1]
+                    outside = not 0 <= val < _RANGES[key] or (key == "pusver" and val != 2)    # PUS-C is version 2
+                if outside and st[1:2] and st[1] in (1, 2, 3):
+                    # a value the field cannot hold (today: stored, and refused / mis-encoded by the next serialiser): the
+                    # setter may refuse it at once with ValueError; nothing is assigned then - the tracked values stay, and
+                    # every later getter / pack / view of this history is judged against them (object unchanged)
+                    continue
                 return ("C11/PusTm.setter/raises", where + " raised %s" % st)
             if k == 5: S["apid"] = o[1]
             elif k == 11: S["flags"] = o[1]
